@@ -18,24 +18,38 @@ PARAMS = dict(criterion="mselin", splitter="best", max_depth=None, min_samples_s
               max_features=None, random_state=None, max_leaf_nodes=None, min_impurity_decrease=0)
 
 
+applyF = z3.Function("apply_", models.Est, models.Row, z3.IntSort())           # ghost: the leaf (node id) a fitted tree routes a row to
 lposF = z3.Function("leaf_position_of_row", models.Est, models.Row, z3.IntSort())     # ghost: position in leaves_index_ of the leaf of a row
+
+
+def _seq_len(v):
+    return v.length
+
+
+def _seq_get(v, t):
+    return v.get(t) if hasattr(v, "get") else z(v.item(t))
 
 
 def _leaves_wf(E, s):
     """object invariant after _fit_reglin (stated as a precondition): leaves_index_ lists nodes of the tree and every row's decision
     path contains exactly one of them (scikit-learn trees: a row ends in exactly one leaf, all leaves are listed - ASSUMED)"""
-    st = s.fields["tree_"].term
+    st = _tree_state(s)
     leaves = s.fields["leaves_index_"]
     R = E.registry
     row = z3.Const("rho!lw", models.Row)
     t = z3.Int("t!lw")
-    L = z(leaves.length)
-    return {"one_row_of_coefficients_per_listed_leaf": z3.And(L >= 1, z(s.fields["betas_"].shape[0]) == L),
+    L = z(_seq_len(leaves))
+    return {"one_row_of_coefficients_per_listed_leaf": z3.And(L >= 1, z(s.fields["betas_"].shape[0]) == L) if "betas_" in s.fields else L >= 1,
             "listed_leaves_are_nodes_and_each_row_ends_in_exactly_one": z3.ForAll([row, t], z3.And(
                 lposF(st, row) >= 0, lposF(st, row) < L,
-                z3.Implies(z3.And(t >= 0, t < L), z3.And(leaves.get(t) >= 0, leaves.get(t) < R.nodesF(st),
-                                                         z3.Or(R.pathF(st, row, leaves.get(t)) == 0, R.pathF(st, row, leaves.get(t)) == 1),
-                                                         (R.pathF(st, row, leaves.get(t)) == 1) == (t == lposF(st, row))))))}
+                z3.Implies(z3.And(t >= 0, t < L), z3.And(_seq_get(leaves, t) >= 0, _seq_get(leaves, t) < R.nodesF(st),
+                                                         z3.Or(R.pathF(st, row, _seq_get(leaves, t)) == 0, R.pathF(st, row, _seq_get(leaves, t)) == 1),
+                                                         (R.pathF(st, row, _seq_get(leaves, t)) == 1) == (t == lposF(st, row))))))}
+
+
+def _tree_state(s):
+    t = s.fields["tree_"]
+    return t.term if isinstance(t, Opaque) else t.fields["$state"]
 
 
 @contract(F + "::PiecewiseTreeRegressor.predict_leaves", "C09")
@@ -62,8 +76,8 @@ class PredictLeaves(Contract):
         ok = isinstance(res, NdArr) and res.ndim == 1
         out = {"one_position_per_row": z3.BoolVal(ok) if not ok else z(res.shape[0]) == z(a.X.shape[0])}
         if ok:
-            st = a.self.fields["tree_"].term
-            L = z(a.self.fields["leaves_index_"].length)
+            st = _tree_state(a.self)
+            L = z(_seq_len(a.self.fields["leaves_index_"]))
             out["position_of_the_rows_own_leaf"] = E.forall_range([(0, z(a.X.shape[0]))], lambda r: z3.And(
                 res.get(r) >= 0, res.get(r) < L, res.get(r) == lposF(st, models.row_of(E, old["X"], r)) + (1 if shifted else 0)))
         return out
@@ -160,8 +174,117 @@ class Predict(Contract):
         return {"other_criteria_use_the_trees_leaf_value": z3.BoolVal(len(tree) == 1 and tree[0]["X"] is a.X and res is tree[0]["result"])}
 
 
-contract(_c02.FitReglin.key, "C09", assumed=True)(type("FitReglin", (_c02.FitReglin,), {
-    "result": lambda self, E, a, old: (E.trace.append(dict(op="_fit_reglin", X=a.X, y=a.y, w=a.sample_weight)), _c02.FitReglin.result(self, E, a, old))[1]}))
+GF = z3.Function("beta_of_leaf_position", z3.IntSort(), z3.IntSort(), z3.RealSort())     # ghost: coefficient j of the regression of leaf position i
+
+
+@contract(_c02.FitReglin.key, "C09")
+class FitReglin(Contract):
+    """PROVED (the real loop over the leaves): leaves_index_ lists exactly the leaves of the tree; for every leaf position i one
+    LinearRegressorCriterion is created on exactly the training rows whose predict_leaves position is i - with their targets and weights -
+    and its node_beta (the least-squares coefficients: compiled code, assumed) is stored in betas_[i, :]"""
+    variants = [False, True]
+    max_paths = 20000
+
+    def setup(self, E, has_w):
+        s = E.new_obj(F + "::PiecewiseTreeRegressor", dict(PARAMS, criterion="mselin"))
+        m = E.size("node_count", 1)
+        t = Obj("Tree", tag="Tree")
+        cl, cr = E.nd("children_left", (m,), "int"), E.nd("children_right", (m,), "int")
+        st = z3.Const("tree", models.Est)
+        t.fields.update(cnt=m, node_count=m, children_left=cl, children_right=cr, n_leaves=E.int("n_leaves"))
+        t.fields["$children_left"], t.fields["$children_right"], t.fields["$state"] = cl, cr, st
+        s.fields["tree_"] = t
+        n, d = E.size("n", 1), E.size("d", 1)
+        return dict(self=s, X=E.nd("X", (n, d)), y=E.nd("y", (n,)), sample_weight=E.nd("w", (n,)) if has_w else None, _m=m, _cl=cl, _cr=cr)
+
+    def requires(self, E, a):
+        # ASSUMED about the fitted scikit-learn tree: a node is a leaf iff both children ids are <= its own id (leaves: -1; split nodes have
+        # larger children), n_leaves counts them, decision_path has one column per node and marks exactly one leaf per row
+        if "_m" not in a:
+            return {}        # call sites use the summary; the facts below are assumptions about the fitted scikit-learn tree, not duties of the caller
+        st = a.self.fields["tree_"].fields["$state"]
+        R = E.registry
+        row, j = z3.Const("rho!fr", models.Row), z3.Int("j!fr")
+        m = z(a._m)
+        isleaf = lambda q: z3.And(a._cl.get(q) <= q, a._cr.get(q) <= q)
+        leafmask = NdArr.from_fn("isleaf", (a._m,), "bool", isleaf)
+        leafmask.canonical_key = True         # the same predicate as the filter of the comprehension in _fit_reglin: one set of ghost symbols
+        fm, n_, K, rank, unrank = E.registry.mask_info(E, leafmask)
+        a["_K"] = K
+        # ghost definition: the position of a row's leaf in leaves_index_ is the rank of that leaf among the leaves
+        E.assume(z3.ForAll([row], lposF(st, row) == rank(applyF(st, row)), patterns=[lposF(st, row)]))
+        return {"decision_path_has_one_column_per_node": R.nodesF(st) == m,
+                "n_leaves_is_the_number_of_leaves": z(a.self.fields["tree_"].fields["n_leaves"]) == K,
+                "every_row_ends_in_exactly_one_leaf": z3.ForAll([row, j], z3.And(
+                    applyF(st, row) >= 0, applyF(st, row) < m, isleaf(applyF(st, row)),
+                    z3.Implies(z3.And(j >= 0, j < m), z3.Or(R.pathF(st, row, j) == 0, R.pathF(st, row, j) == 1)),
+                    z3.Implies(z3.And(j >= 0, j < m, isleaf(j)), (R.pathF(st, row, j) == 1) == (j == applyF(st, row))))),
+                "one_target_per_row": z3.And(z(a.y.shape[0]) == z(a.X.shape[0]), z3.BoolVal(True) if a.sample_weight is None else z(a.sample_weight.shape[0]) == z(a.X.shape[0]))}
+
+    def old(self, E, a):
+        return dict(tl=len(E.trace), w=a.X.cell.writes) if "_m" in a else dict(callsite=True)
+
+    @staticmethod
+    def _inv(E, L):
+        s, X = L["self"], L["X"]
+        betas = s.fields["betas_"]
+        i, j = z3.Int(models.fresh_name("i")), z3.Int(models.fresh_name("j"))
+        out = {"coefficients_of_the_leaves_done_so_far": z3.ForAll([i, j], z3.Implies(
+            z3.And(i >= 0, i < z(L.k), j >= 0, j <= z(X.shape[1])), betas.get(i, j) == GF(i, j)))}
+        creates = [t for t in E.trace if t["op"] == "LinearRegressorCriterion.create"]
+        betas_w = [t for t in E.trace if t["op"] == "node_beta"]
+        if creates:
+            # the iteration just executed (leaf position L.k - 1): its criterion was built on exactly the rows of that position
+            t = creates[-1]
+            pos = z(L.k) - 1
+            pred = L["pred_leaves"]
+            ok = len(creates) == 1 and len(betas_w) == 1 and betas_w[0]["obj"] is t["result"]
+            sel = getattr(t["X"].cell, "sel_of", None) if isinstance(t["X"], NdArr) else None
+            ok = ok and sel is not None and sel[0] is X and (L["sample_weight"] is None) == (t["w"] is None) and isinstance(t["y"], NdArr) and t["y"].ndim == 2
+            out["one_criterion_per_leaf_whose_coefficients_are_stored"] = z3.BoolVal(bool(ok))
+            if ok:
+                fm, n_, K_, rank, unrank = E.registry.mask_info(E, sel[1])
+                r, q = z3.Int(models.fresh_name("r")), z3.Int(models.fresh_name("q"))
+                out["criterion_built_on_exactly_the_rows_of_this_leaf_position"] = z3.ForAll(
+                    [r], z3.Implies(z3.And(r >= 0, r < z(X.shape[0])), fm.get(r) == (pred.get(r) == pos)))
+                same = [z(t["y"].shape[0]) == K_, z(t["y"].shape[1]) == 1, t["y"].get(q, 0) == L["y"].get(unrank(q))]
+                if t["w"] is not None:
+                    same += [z(t["w"].shape[0]) == K_, t["w"].get(q) == L["sample_weight"].get(unrank(q))]
+                out["with_the_targets_and_weights_of_those_rows"] = z3.ForAll([q], z3.Implies(z3.And(q >= 0, q < K_), z3.And(*same)))
+                # ghost definition of GF at this position: the coefficients of THAT criterion (each position is visited once)
+                jj = z3.Int(models.fresh_name("jj"))
+                E.assume(z3.ForAll([jj], GF(pos, jj) == E.registry.olsF(t["result"].fields["$cid"], jj)))
+        return out
+    loops = {0: _inv.__func__}
+
+    def result(self, E, a, old):
+        E.trace.append(dict(op="_fit_reglin", X=a.X, y=a.y, w=a.sample_weight))
+        return _c02.FitReglin.result(self, E, a, old)
+
+    def ensures(self, E, a, res, old, off=0):
+        if old.get("callsite"):
+            return {}
+        s = a.self
+        leaves, betas = s.fields.get("leaves_index_"), s.fields.get("betas_")
+        ok = leaves is not None and isinstance(betas, NdArr) and betas.ndim == 2
+        out = {"leaves_index_and_betas_are_set": z3.BoolVal(ok)}
+        if not ok:
+            return out
+        K = z(_seq_len(leaves))
+        t = z3.Int(models.fresh_name("t"))
+        isleaf = lambda q: z3.And(a._cl.get(q) <= q, a._cr.get(q) <= q)
+        out["leaves_index_lists_leaves_in_increasing_order_and_all_of_them"] = z3.And(K == z(a._K), z3.ForAll([t], z3.Implies(z3.And(t >= 0, t < K), z3.And(
+            _seq_get(leaves, t) >= 0, _seq_get(leaves, t) < z(a._m), isleaf(_seq_get(leaves, t)),
+            z3.Implies(t + 1 < K, _seq_get(leaves, t) < _seq_get(leaves, t + 1))))))
+        out["one_row_of_coefficients_per_leaf_features_then_intercept"] = z3.And(z(betas.shape[0]) == K, z(betas.shape[1]) == z(a.X.shape[1]) + 1)
+        i, j = z3.Int(models.fresh_name("i")), z3.Int(models.fresh_name("j"))
+        out["row_i_holds_the_coefficients_of_the_regression_of_leaf_position_i"] = z3.ForAll([i, j], z3.Implies(
+            z3.And(i >= 0, i < K, j >= 0, j <= z(a.X.shape[1])), betas.get(i, j) == GF(i + off, j)))
+        out["training_data_not_written"] = z3.BoolVal(a.X.cell.writes == old["w"])
+        return out
+
+    canaries = {"coefficients_of_the_next_leaf": lambda E, a, res, old: FitReglin().ensures(E, a, res, old, off=1).get(
+        "row_i_holds_the_coefficients_of_the_regression_of_leaf_position_i", z3.BoolVal(True))}
 
 
 class Fit(_c02.PiecewiseTreeFit):
@@ -186,9 +309,10 @@ contract(_c02.PiecewiseTreeFit.key, "C09")(Fit)
 
 META = dict(
     level="proof", assumptions=["A1", "A2", "A6", "A7", "A9"], lean_files=["lemmas/Counting.lean"],
-    trusted=["_fit_reglin is ASSUMED on the Python side (LinearRegressorCriterion.create / node_beta are compiled LAPACK code); predict_leaves is PROVED "
-             "against the object invariant _fit_reglin leaves behind (leaves_index_ lists nodes of the tree, every row's decision path contains exactly "
-             "one of them - scikit-learn trees, assumed) and the sparse-matrix / argmax models of pyvc/sparsemodel.py",
+    trusted=["LinearRegressorCriterion.create / node_beta are compiled LAPACK code: ASSUMED to build a criterion over exactly the given rows and to write ITS "
+             "least-squares coefficients (features then intercept); _fit_reglin (the real loop over the leaves) and predict_leaves are PROVED against the "
+             "scikit-learn facts stated as preconditions (a node is a leaf iff both children ids are <= its id; n_leaves counts them; decision_path has one "
+             "column per node and marks exactly one leaf per row) and the sparse-matrix / argmax models of pyvc/sparsemodel.py",
              "numpy.dot of two vectors is a function of their entries (ghost dot1); DecisionTreeRegressor.fit/predict are scikit-learn's",
              "the compiled criteria 'simple' (SimpleRegressorCriterion, SimpleRegressorCriterionFast) and their common base are verified on the "
              "Python-subset text EXTRACTED MECHANICALLY from the .pyx files on every run (pyvc/pyxstrip.py: cimports, C types of signatures and "
